@@ -175,7 +175,8 @@ def run(ctx):
     ctx.decided("constant value slicing (CONSTS)")
     ctx.decided("selector polynomial base 31 with wrapping arithmetic, key-list order (SELECTOR)")
     ctx.decided("selector table = nodes then aliases, written only in from_existing; find_node indexing (NODES)")
-    ctx.not_decided("string-table extraction; bytecode slices; hash values; dye-table dispatch for legacy 0x42 files")
+    ctx.decided("string-heap offsets advance by bytes consumed, not by decoded text length (HEAP)")
+    ctx.not_decided("string-table contents; bytecode slices; hash values; dye-table dispatch for legacy 0x42 files")
 
     # ---- OWN
     n_own = 0
@@ -227,6 +228,25 @@ def run(ctx):
         owner = name.split(" as ")[0].lstrip("<")
         ctx.ob("OWN", f"closure|{owner}|{pty.split('::')[-1]}", got == order[pty], f"{owner}: {pty.split('::')[-1]} -> array built from fields {got}; must be {order[pty]}", b.file, b.line, sample=(n_cl == 1))
     ctx.floor("OWN", "tuple unpackers (functions + colour-row closures)", n_own + n_cl, 3 + 10)
+
+    # ---- HEAP: the texture paths sit back to back in the string heap; the running offset must advance by the *bytes*
+    # consumed. The paths are decoded byte by byte with `as char` (one char per byte, two UTF-8 bytes for 0x80..), so
+    # the decoded String's len() is not the stored length
+    mfb = prog.body("mtrl::Material::from_existing")
+    if not mfb:
+        ctx.fail_closed("HEAP", "mtrl::Material::from_existing not found")
+    else:
+        from ..prov import derive as _derive, index_of as _index_of
+
+        hix = _index_of(mfb)
+        latin1 = any(st_.get("rv", {}).get("k") == "cast" and (st_["lhs"].get("ty") or mfb.locals[st_["lhs"]["l"]]["ty"]) == "char" for _b, _s, st_ in mfb.stmts() if st_["k"] == "assign")
+        n_heap, textlen = 0, []
+        for bi_, t_ in mfb.calls():
+            if hix.callee(t_).split("::")[-1] == "get" and len(t_["args"]) == 2 and "strings" in _derive(hix, t_["args"][0]).names:
+                n_heap += 1
+                d1_ = _derive(hix, t_["args"][1])
+                textlen += [c_ for c_ in d1_.calls if c_.endswith(("String::len", "str::len", "Chars<'a> as std::iter::Iterator>::count", "str::chars"))]
+        ctx.ob("HEAP", "offset-advances-by-bytes", not (latin1 and textlen), f"{n_heap} string-heap accesses; their offsets derive from text lengths {sorted(set(textlen))} while the text is decoded one char per byte ({latin1}); the next path starts after the bytes consumed, not after the decoded String's UTF-8 length", mfb.file, mfb.line, sample=True)
 
     # ---- W1 / W3
     n = w1(ctx, ["mtrl::MaterialFileHeader", "mtrl::MaterialHeader", "mtrl::ColorSet", "mtrl::ShaderKey", "mtrl::ConstantStruct", "mtrl::Sampler", "mtrl::LegacyColorTableRow",
